@@ -20,7 +20,7 @@ BOUND = ("dimension-wise: d=2 with (lmin,lmax) in {(1,2),(1,3),(2,3)}, d=3 with 
          "versions {6,2,3,7,8}; rebalancing on/off; margin in {0.9,0.5,0.99}; extend-split: d in {2,3}, lmin=1, lmax in {2,3} (d=3: 2), TrapezoidalGrid with boundary, "
          "versions {0,1,2}, refinements-before-extend {1,2,3}, automatic_extend_split, split_single_dim; cell: d in {2,3}, lmin=lmax in {1,2,3} (d=3: {1,2}), "
          "TrapezoidalGrid with boundary; domains [0,1]^d and [-0.5,1.5]^d; driver component: 40 x (Genz family member, random smooth function, or a sum of narrow one-dimensional Gaussians at random corners), norms {1,2,inf}; "
-         "every stop index of histories with <=8 (d=3: <=4) refinement steps, each reached by a fresh run with max_evaluations (quick: first, last and two "
+         "a systematic core (each version x boundary on/off, no rebalancing, d=2, (1,3), corner-peak driver) plus seeded random configurations; every stop index of histories with <=8 (d=3: <=4) refinement steps, each reached by a fresh run with max_evaluations (quick: first, last and two "
          "other stop indices); 12 probe points (8 random, 4 dyadic); seeded pseudo-random selection")
 RULE = BOUND + "; a case is one (configuration, driver, stop limit); non-trivial = at least one refinement step before the stop"
 CLAUSES = {
@@ -214,6 +214,30 @@ def gen_driver(ctx, d):
     return _dc().random_genz(rng, d)
 
 
+def core_configs(ctx):
+    """Systematic part: every coarsening version without rebalancing (plus two with), boundary on/off, d=2, (lmin,lmax)=(1,3) and one d=3
+    configuration per version, each driven by narrow one-dimensional peaks in opposite corners (the refinement pattern that leaves a
+    region coarse in all dimensions at once)."""
+    rng = ctx.rng
+    out = []
+    for vi, version in enumerate((6, 2, 3, 7, 8)):
+        for boundary in (True, False):
+            d = 2
+            m = rng.choice([[0.9, 0.1], [0.1, 0.9], [0.85, 0.2], [0.15, 0.8]])
+            cfg = {"strategy": "dimwise", "a": [0.0] * d, "b": [1.0] * d, "norm": [1, 2, "inf"][vi % 3], "grid": {"type": "GlobalTrapezoidal", "boundary": boundary},
+                   "opts": {"version": version, "rebalancing": False}}
+            out.append((cfg, (1, 3), ["addgauss", [rng.choice([60.0, 200.0, 600.0])] * d, m]))
+        if not ctx.quick():
+            cfg = {"strategy": "dimwise", "a": [0.0] * 3, "b": [1.0] * 3, "norm": "inf", "grid": {"type": "GlobalTrapezoidal", "boundary": vi % 2 == 0},
+                   "opts": {"version": version, "rebalancing": False}}
+            out.append((cfg, (1, 2), ["addgauss", [200.0] * 3, rng.choice([[0.9, 0.1, 0.5], [0.1, 0.9, 0.9], [0.8, 0.2, 0.15]])]))
+    for boundary in (True, False):
+        cfg = {"strategy": "dimwise", "a": [0.0, 0.0], "b": [1.0, 1.0], "norm": "inf", "grid": {"type": "GlobalTrapezoidal", "boundary": boundary},
+               "opts": {"version": 6, "rebalancing": True}}
+        out.append((cfg, (1, 2), ["addgauss", [200.0, 200.0], [0.9, 0.1]]))
+    return out
+
+
 def probe_points(ctx, a, b):
     d = len(a)
     pts = [[ctx.rng.uniform(0.01, 0.99) for _ in range(d)] for _ in range(8)]
@@ -227,11 +251,12 @@ def run(ctx):
     quick = ctx.quick()
     rounds = 0
     while True:
-        for cfg, (lmin, lmax) in gen_configs(ctx, 35 if quick else 70):
+        todo = [(c, lm, drv) for c, lm, drv in core_configs(ctx)] + [(c, lm, None) for c, lm in gen_configs(ctx, 28 if quick else 70)]
+        for cfg, (lmin, lmax), drv in todo:
             if ctx.out_of_time(0.85):
                 break
             d = len(cfg["a"])
-            base = {"cfg": cfg, "lmin": lmin, "lmax": lmax, "driver": gen_driver(ctx, d), "combo_seed": ctx.rng.randrange(10 ** 6),
+            base = {"cfg": cfg, "lmin": lmin, "lmax": lmax, "driver": drv or gen_driver(ctx, d), "combo_seed": ctx.rng.randrange(10 ** 6),
                     "probe": probe_points(ctx, cfg["a"], cfg["b"])}
             ctx.case(dict(base, kind="scout"), nontrivial=False)
             npts = None
